@@ -59,7 +59,10 @@ Section Perp.
   Theorem perplexity_exit_thm : forall self dd perp ev,
     perp_search self dd perp = (true, Some ev) ->
     (exists beta, ev = evaluate self dd beta) /\ entropy_within logf tol perp ev.
-  Proof. intros self dd perp ev H. eapply perp_loop_found. exact H. Qed.
+  Proof.
+    intros self dd perp ev H. unfold Tsne_Model.perp_search in H.
+    exact (perp_loop_found 200 self dd perp (1, None, None) None ev H).
+  Qed.
 
   (* the row in memory after the loop is always a row evaluated at some beta *)
   Lemma perp_loop_row : forall fuel self dd perp st last b o,
